@@ -121,6 +121,23 @@ func openStorage(dir string, opt Options) (*storage, error) {
 	if s.log, err = log.Open(filepath.Join(dir, "log"), 0700, logOpt); err != nil {
 		return nil, err
 	}
+	// a crash while installing a snapshot can leave behind a log which that
+	// snapshot supersedes: finish what onInstallSnapRequest would have done
+	if s.snaps.index > s.log.PrevIndex() {
+		discard := s.log.LastIndex() < s.snaps.index
+		if !discard {
+			var term uint64
+			if term, err = s.getEntryTerm(s.snaps.index); err != nil {
+				return nil, err
+			}
+			discard = term != s.snaps.term
+		}
+		if discard {
+			if err = s.log.Reset(s.snaps.index); err != nil {
+				return nil, err
+			}
+		}
+	}
 	if s.log.Count() > 0 {
 		data, err := s.log.Get(s.log.LastIndex())
 		if err != nil {
